@@ -186,6 +186,17 @@ Definition kadd_watch (k : kst) (t : fs) (p : bytes) (mask : N) : option (kst * 
     end
   end.
 
+(* inotify_rm_watch(wd): the watch is removed and IN_IGNORED queued; an unknown descriptor is EINVAL (no effect) *)
+Definition krm_watch (k : kst) (wd : N) : kst :=
+  match find (fun w => N.eqb (kw_wd w) wd) (k_watches k) with
+  | Some _ =>
+    {| k_watches := filter (fun x => negb (N.eqb (kw_wd x) wd)) (k_watches k);
+       k_next_wd := k_next_wd k;
+       k_queue := kpush (k_queue k) {| k_wd := wd; k_mask := IN_IGNORED; k_cookie := 0; k_name := [] |};
+       k_next_cookie := k_next_cookie k |}
+  | None => k
+  end.
+
 Definition kinit : kst := {| k_watches := []; k_next_wd := 1; k_queue := []; k_next_cookie := 1 |}.
 
 (* WATCHDOG_ALL_EVENTS without IN_DONT_FOLLOW (a flag, not an event) *)
